@@ -14,7 +14,31 @@ def _m(case, a):
     return None
 
 
+@monitor('c01_context')
+def _context(case, a):
+    """exhaustive over a block of code points: each code point *in context* (between two
+    consonants, through the real tokenizer) contributes exactly what the specification assigns —
+    catches tokenizer paths that bypass the per-character normaliser"""
+    from pbhhg_py import parse
+    lo, hi = case.data
+    for c in range(lo, hi):
+        if 0xD800 <= c < 0xE000:
+            continue
+        ch = chr(c)
+        try:
+            toks = [t for t, _ in parse.tokenize('<t>', "ㄴ" + ch + "ㄴ")]
+        except Exception as e:
+            return f"tokenize crashed on U+{c:04X}: {type(e).__name__}: {e}"
+        got = " ".join(toks)
+        want = " ".join(("ㄴ" + respell.spec_norm(c) + "ㄴ").split()) if c != 10 else "ㄴ ㄴ"
+        if got != want:
+            return f"U+{c:04X} between two consonants tokenizes as {toks}, the specification gives {want.split()}"
+    return None
+
+
 def cases(rng, tier):
+    for lo in range(0, 0x110000, 0x8000):
+        yield Case(program="ㄱ", tag='context-sweep', monitor='c01_context', data=(lo, lo + 0x8000), skip_model=True, timeout=120)
     n = 600 if tier == 'quick' else 20000
     g = gen.Gen(rng, max_depth=4)
     for i in range(n):
@@ -77,7 +101,7 @@ SPEC = {
     'relevant': relevant,
     'search': search,
     'stream': 'C01 re-spelled program stream',
-    'rule': 'tie A: pbhhg_py.parse.normalize evaluated on all 1,114,112 code points and parse.ts normalizeChar '
+    'rule': 'every code point placed between two consonants and run through the real tokenizer (exhaustive, 34 blocks) must contribute the specified consonants; tie A: pbhhg_py.parse.normalize evaluated on all 1,114,112 code points and parse.ts normalizeChar '
             'translated over all 65,536 code units, both proved equal to the specification table by the kernel '
             '(exhaustive); tie B: random programs and up to three re-spellings each (other blocks, tense / aspirated / '
             'archaic letters, syllables, inserted vowels / finals / tone marks / punctuation, NFC/NFD) must behave '
